@@ -1,13 +1,13 @@
 /* C10: persistent store/validate/fetch round-trips and stays inside its region.
  * Units: src/persistent-storage.c, src/crc-16-arc.c (linked unchanged).
- * See c10_common.h for the medium model and the checksum kinds. The initial
- * medium content is arbitrary in every mode, so each mode is a step from any
- * history of the medium.
+ * See c10_common.h for the medium model, the checksum kinds and the scenario
+ * structure. The initial medium content is arbitrary in every mode, so each
+ * mode is a step from any history of the medium.
  *
  * MODE_ROUNDTRIP  full store -> validate -> fetch
  * MODE_ALTER      full store -> one octet of the region altered -> validate
- * MODE_PART       store_part / validate / fetch / fetch_part, full 64-bit
- *                 (offset, length) pairs
+ * MODE_PART       store_part with full 64-bit (offset, length) -> validate -> fetch
+ * MODE_FETCHPART  fetch_part with full 64-bit (offset, length)
  * MODE_RESET      persistent_reset
  */
 #define PROP "C10"
@@ -19,8 +19,7 @@ struct vp_in {
     uint8_t medium[MSIZE];
     uint8_t image[N];
     uint8_t dst[GUARD + N + GUARD];
-    uint64_t off, len;   /* store_part */
-    uint64_t foff, flen; /* fetch_part */
+    uint64_t off, len; /* store_part / fetch_part */
     uint8_t alt_pos, alt_val;
     uint8_t item;
 };
@@ -38,34 +37,25 @@ static bool dst_guards_same(const uint8_t *dst, const uint8_t *before, size_t n)
     return same;
 }
 
-static bool dst_is(const uint8_t *dst, const uint8_t *img)
+static void scenario(const struct vp_in *in, uint8_t kind, uint8_t aux)
 {
-    bool same = true;
-    for (size_t i = 0; i < N; ++i)
-        if (dst[GUARD + i] != img[i])
-            same = false;
-    return same;
-}
-
-void harness(void)
-{
-    VP_INPUT(in);
-    c10_assume_cfg(&in.cfg);
-    c10_load_medium(in.medium);
+    struct c10_cfg cfg = in->cfg;
+    if (!c10_begin(&cfg, kind, aux, in->medium))
+        return;
 
     PersistentStorage s;
-    c10_instance(&s, &in.cfg);
+    c10_instance(&s, &cfg);
 
     uint8_t dst[DSTSZ];
     for (size_t i = 0; i < DSTSZ; ++i)
-        dst[i] = in.dst[i];
+        dst[i] = in->dst[i];
     uint8_t img[N];
     for (size_t i = 0; i < N; ++i)
-        img[i] = in.image[i];
+        img[i] = in->image[i];
 
 #if defined(MODE_ROUNDTRIP) || defined(MODE_ALTER)
-    c10_current(&in.cfg, img, &in.sta);
-    const uint32_t ref = c10_ref(&in.cfg, img);
+    c10_current(&cfg, img, &in->sta);
+    const uint32_t ref = c10_ref(&cfg, img);
     PersistentAccess rc = persistent_store(&s, img);
 #endif
 
@@ -73,58 +63,61 @@ void harness(void)
     VP_ASSERT(rc == PERSISTENT_ACCESS_SUCCESS, "C10.store.succeeds");
     VP_ASSERT(c10_data_is(img), "C10.store.data-on-medium-is-image");
     VP_ASSERT(c10_stored() == ref, "C10.store.checksum-on-medium-is-algorithm-of-image");
-    VP_ASSERT(c10_outside_same(in.medium), "C10.store.nothing-outside-region");
+    VP_ASSERT(c10_outside_same(in->medium), "C10.store.nothing-outside-region");
 
     rc = persistent_validate(&s);
     VP_ASSERT(rc == PERSISTENT_ACCESS_SUCCESS, "C10.validate-after-store.succeeds");
 
     rc = persistent_fetch(dst + GUARD, &s);
     VP_ASSERT(rc == PERSISTENT_ACCESS_SUCCESS, "C10.fetch-after-store.succeeds");
-    VP_ASSERT(dst_is(dst, img), "C10.fetch-after-store.returns-image");
-    VP_ASSERT(dst_guards_same(dst, in.dst, N), "C10.fetch.writes-only-n-octets");
-    VP_ASSERT(c10_data_is(img) && c10_stored() == ref && c10_outside_same(in.medium),
+    VP_ASSERT(c10_same(dst + GUARD, img), "C10.fetch-after-store.returns-image");
+    VP_ASSERT(dst_guards_same(dst, in->dst, N), "C10.fetch.writes-only-n-octets");
+    VP_ASSERT(c10_data_is(img) && c10_stored() == ref && c10_outside_same(in->medium),
               "C10.validate-fetch.leave-medium");
-    VP_WITNESS(in.cfg.aux == 0 && in.cfg.base == 0xfffffff0u, "C10.roundtrip.nobuf.reach");
-#ifndef KIND
-    VP_WITNESS(C10_KIND(&in.cfg) == 3 && in.cfg.aux == 1, "C10.roundtrip.any-16bit.reach");
-    VP_WITNESS(C10_KIND(&in.cfg) == 4 && in.cfg.aux == 1, "C10.roundtrip.any-32bit.reach");
+    VP_WITNESS(aux == 0 && cfg.base == 0xfffffff0u && cfg.order == 0, "C10.roundtrip.nobuf.reach");
+#if (KINDS) & 0x0bu
+    VP_WITNESS(!C10_WIDE(kind) && aux == 1, "C10.roundtrip.16bit.reach");
 #endif
-    VP_WITNESS(in.cfg.aux == AUXMAX && in.cfg.order == 1, "C10.roundtrip.bigbuf.reach");
-    VP_WITNESS(in.cfg.aux == AUXMID && in.cfg.init == 0xffffu && !a_lost, "C10.roundtrip.chunked.reach");
+#if (KINDS) & 0x14u
+    VP_WITNESS(C10_WIDE(kind) && aux == 1, "C10.roundtrip.32bit.reach");
+#endif
+    VP_WITNESS(aux == AUXMAX && cfg.order == 1 && cfg.base == 0x1000u, "C10.roundtrip.bigbuf.reach");
+    VP_WITNESS(aux == AUXMID && cfg.init == 0xffffu && !a_lost && m_reads >= 3, "C10.roundtrip.chunked.reach");
 
 #elif defined(MODE_ALTER)
     /* the clause is about the state after a successful store */
     if (rc != PERSISTENT_ACCESS_SUCCESS)
         return;
-    VP_ASSUME(in.alt_pos < m_cs + N);
-    VP_ASSUME(in.alt_val != M[GUARD + in.alt_pos]);
-    M[GUARD + in.alt_pos] = in.alt_val;
+    if (in->alt_pos >= m_cs + N || in->alt_val == M[GUARD + in->alt_pos])
+        return;
+    M[GUARD + in->alt_pos] = in->alt_val;
     uint8_t img2[N];
     c10_get_data(img2);
-    if (in.alt_pos >= m_cs) {
+    struct c10_states st2 = in->stb;
+    if (in->alt_pos >= m_cs) {
         /* a data octet changed: the altered image has its own states, equal to
          * the original ones as far as the two images share a prefix */
-        const size_t j = in.alt_pos - m_cs;
+        const size_t j = in->alt_pos - m_cs;
         for (size_t k = 0; k < N; ++k)
             if (k < j)
-                VP_ASSUME(in.stb.st[k] == in.sta.st[k]);
-        c10_current(&in.cfg, img2, &in.stb);
+                st2.st[k] = in->sta.st[k];
+        c10_current(&cfg, img2, &st2);
     }
-    const bool distinguishes = (c10_stored() != ref) || (c10_ref(&in.cfg, img2) != ref);
+    const bool distinguishes = (c10_stored() != ref) || (c10_ref(&cfg, img2) != ref);
     PersistentStorage t; /* validation by a fresh instance of the same configuration */
-    c10_instance(&t, &in.cfg);
+    c10_instance(&t, &cfg);
     rc = persistent_validate(&t);
     if (distinguishes)
         VP_ASSERT(rc == PERSISTENT_ACCESS_INVALID_DATA, "C10.alter.reported-invalid");
-    VP_WITNESS(distinguishes && in.alt_pos >= m_cs && in.cfg.aux == AUXMID, "C10.alter.data.reach");
-    VP_WITNESS(distinguishes && in.alt_pos + 1 == m_cs && in.cfg.aux == 0, "C10.alter.checksum.reach");
-#ifndef KIND
-    VP_WITNESS(!distinguishes && rc == PERSISTENT_ACCESS_SUCCESS, "C10.alter.collision.reach");
+    VP_WITNESS(distinguishes && in->alt_pos >= m_cs && aux == AUXMID, "C10.alter.data.reach");
+    VP_WITNESS(distinguishes && in->alt_pos + 1 == m_cs && aux == 0, "C10.alter.checksum.reach");
+#if (KINDS) & 0x18u
+    VP_WITNESS(!distinguishes && rc == PERSISTENT_ACCESS_SUCCESS && C10_ABSTRACT(kind), "C10.alter.collision.reach");
 #endif
 
 #elif defined(MODE_PART)
     /* source operand: exactly min(len, N) octets, ending at the array's end */
-    const size_t have = in.len > N ? N : (size_t)in.len;
+    const size_t have = in->len > N ? N : (size_t)in->len;
 #ifdef VP_REPLAY
     uint8_t *src = malloc(have ? have : 1);
     memcpy(src, img + (N - have), have);
@@ -135,76 +128,87 @@ void harness(void)
     c10_get_data(old);
 
     /* beyond the data size, mathematically (no wrap) */
-    const bool oor = in.len > N || in.off > N - in.len;
+    const bool oor = in->len > N || in->off > N - in->len;
     for (size_t i = 0; i < N; ++i)
-        want[i] = (!oor && i >= in.off && i < in.off + in.len) ? src[i - in.off] : old[i];
-    c10_current(&in.cfg, want, &in.sta);
+        want[i] = (!oor && i >= in->off && i < in->off + in->len) ? src[i - in->off] : old[i];
+    c10_current(&cfg, want, &in->sta);
 
-    PersistentAccess rc = persistent_store_part(&s, src, (size_t)in.off, (size_t)in.len);
+    PersistentAccess rc = persistent_store_part(&s, src, (size_t)in->off, (size_t)in->len);
     if (oor) {
         VP_ASSERT(rc == PERSISTENT_ACCESS_ADDRESS_OUT_OF_RANGE, "C10.store-part.beyond-size-refused");
         VP_ASSERT(m_calls == 0, "C10.store-part.refused-without-medium-access");
-        VP_ASSERT(c10_medium_same(in.medium), "C10.store-part.refused-medium-unchanged");
-        VP_WITNESS(in.off + in.len <= N, "C10.store-part.wrapping-pair.reach");
-        VP_WITNESS(in.off == N && in.len == 1, "C10.store-part.just-beyond.reach");
+        VP_ASSERT(c10_medium_same(in->medium), "C10.store-part.refused-medium-unchanged");
+        VP_WITNESS(in->off + in->len <= N, "C10.store-part.wrapping-pair.reach");
+        VP_WITNESS(in->off == N && in->len == 1, "C10.store-part.just-beyond.reach");
     } else {
         VP_ASSERT(rc == PERSISTENT_ACCESS_SUCCESS, "C10.store-part.succeeds");
         VP_ASSERT(c10_data_is(want), "C10.store-part.data-on-medium-is-overlay");
-        VP_ASSERT(c10_stored() == c10_ref(&in.cfg, want),
+        VP_ASSERT(c10_stored() == c10_ref(&cfg, want),
                   "C10.store-part.checksum-on-medium-is-algorithm-of-image");
-        VP_ASSERT(c10_outside_same(in.medium), "C10.store-part.nothing-outside-region");
+        VP_ASSERT(c10_outside_same(in->medium), "C10.store-part.nothing-outside-region");
         rc = persistent_validate(&s);
         VP_ASSERT(rc == PERSISTENT_ACCESS_SUCCESS, "C10.validate-after-store-part.succeeds");
         rc = persistent_fetch(dst + GUARD, &s);
         VP_ASSERT(rc == PERSISTENT_ACCESS_SUCCESS, "C10.fetch-after-store-part.succeeds");
-        VP_ASSERT(dst_is(dst, want), "C10.fetch-after-store-part.returns-overlay");
-        VP_WITNESS(in.off > 0 && in.off + in.len == N && in.cfg.aux == AUXMID && !a_lost,
+        VP_ASSERT(c10_same(dst + GUARD, want), "C10.fetch-after-store-part.returns-overlay");
+        VP_WITNESS(in->off > 0 && in->off + in->len == N && aux == AUXMID && !a_lost,
                    "C10.store-part.tail.reach");
-        VP_WITNESS(in.len == 0 && in.off == N, "C10.store-part.empty-at-end.reach");
-        VP_WITNESS(in.off == 0 && in.len == N && in.cfg.aux == AUXMAX, "C10.store-part.full.reach");
-        for (size_t i = 0; i < DSTSZ; ++i)
-            dst[i] = in.dst[i];
+        VP_WITNESS(in->len == 0 && in->off == N, "C10.store-part.empty-at-end.reach");
+        VP_WITNESS(in->off == 0 && in->len == N && aux == AUXMAX, "C10.store-part.full.reach");
     }
+#ifdef VP_REPLAY
+    free(src);
+#endif
 
-    /* fetch_part on the resulting state */
-    uint8_t before[MSIZE];
-    for (size_t i = 0; i < MSIZE; ++i)
-        before[i] = M[i];
-    const unsigned calls0 = m_calls;
-    const bool foor = in.flen > N || in.foff > N - in.flen;
-    rc = persistent_fetch_part(dst + GUARD, &s, (size_t)in.foff, (size_t)in.flen);
-    if (foor) {
+#elif defined(MODE_FETCHPART)
+    uint8_t data[N];
+    c10_get_data(data);
+    const bool oor = in->len > N || in->off > N - in->len;
+    PersistentAccess rc = persistent_fetch_part(dst + GUARD, &s, (size_t)in->off, (size_t)in->len);
+    if (oor) {
         VP_ASSERT(rc == PERSISTENT_ACCESS_ADDRESS_OUT_OF_RANGE, "C10.fetch-part.beyond-size-refused");
-        VP_ASSERT(m_calls == calls0, "C10.fetch-part.refused-without-medium-access");
-        VP_ASSERT(dst_guards_same(dst, in.dst, 0), "C10.fetch-part.refused-destination-untouched");
-        VP_WITNESS(in.foff + in.flen <= N, "C10.fetch-part.wrapping-pair.reach");
+        VP_ASSERT(m_calls == 0, "C10.fetch-part.refused-without-medium-access");
+        VP_ASSERT(dst_guards_same(dst, in->dst, 0), "C10.fetch-part.refused-destination-untouched");
+        VP_WITNESS(in->off + in->len <= N, "C10.fetch-part.wrapping-pair.reach");
+        VP_WITNESS(in->off == 0 && in->len == N + 1, "C10.fetch-part.just-beyond.reach");
     } else {
         VP_ASSERT(rc == PERSISTENT_ACCESS_SUCCESS, "C10.fetch-part.succeeds");
         bool same = true;
         for (size_t i = 0; i < N; ++i)
-            if (i < in.flen && dst[GUARD + i] != want[in.foff + i])
+            if (i < in->len && dst[GUARD + i] != data[in->off + i])
                 same = false;
         VP_ASSERT(same, "C10.fetch-part.returns-slice");
-        VP_ASSERT(dst_guards_same(dst, in.dst, (size_t)in.flen), "C10.fetch-part.writes-only-n-octets");
-        VP_WITNESS(in.foff == N / 2 && in.flen > 0 && in.foff + in.flen == N && !oor,
+        VP_ASSERT(dst_guards_same(dst, in->dst, (size_t)in->len), "C10.fetch-part.writes-only-n-octets");
+        VP_WITNESS(in->off == N / 2 && in->len > 0 && in->off + in->len == N && C10_WIDE(kind),
                    "C10.fetch-part.tail.reach");
+        VP_WITNESS(in->off == N && in->len == 0, "C10.fetch-part.empty-at-end.reach");
     }
-    VP_ASSERT(c10_medium_same(before), "C10.fetch-part.leaves-medium");
+    VP_ASSERT(c10_medium_same(in->medium), "C10.fetch-part.leaves-medium");
 
 #elif defined(MODE_RESET)
-    PersistentAccess rc = persistent_reset(&s, in.item);
+    PersistentAccess rc = persistent_reset(&s, in->item);
     VP_ASSERT(rc == PERSISTENT_ACCESS_SUCCESS, "C10.reset.succeeds");
     bool all = true;
     for (size_t i = 0; i < RMAX; ++i)
-        if (i < m_cs + N && M[GUARD + i] != in.item)
+        if (i < m_cs + N && M[GUARD + i] != in->item)
             all = false;
     VP_ASSERT(all, "C10.reset.every-region-octet-is-fill-value");
-    VP_ASSERT(c10_outside_same(in.medium), "C10.reset.nothing-outside-region");
-    VP_WITNESS(in.cfg.aux == 0 && C10_WIDE(C10_KIND(&in.cfg)) && in.item == 0xa5, "C10.reset.nobuf-32bit.reach");
-    VP_WITNESS(in.cfg.aux == AUXMAX && in.cfg.base == 0x12345678u, "C10.reset.bigbuf.reach");
-    VP_WITNESS(in.cfg.aux == AUXMID && C10_KIND(&in.cfg) == 0, "C10.reset.chunked-default.reach");
+    VP_ASSERT(c10_outside_same(in->medium), "C10.reset.nothing-outside-region");
+    VP_WITNESS(aux == 0 && C10_WIDE(kind) && in->item == 0xa5, "C10.reset.nobuf-32bit.reach");
+    VP_WITNESS(aux == AUXMAX && cfg.base == 0x12345678u, "C10.reset.bigbuf.reach");
+    VP_WITNESS(aux == AUXMID && kind == 0 && m_writes >= 3, "C10.reset.chunked-default.reach");
 #else
 #error "no MODE"
 #endif
+}
+
+void harness(void)
+{
+    VP_INPUT(in);
+    c10_assume_cfg(&in.cfg);
+    for (unsigned kind = 0; kind < NKINDS; ++kind)
+        for (unsigned aux = 0; aux <= AUXMAX; ++aux)
+            if (c10_selected(kind, aux))
+                scenario(&in, (uint8_t)kind, (uint8_t)aux);
 }
 VP_MAIN_EPILOGUE()
